@@ -340,8 +340,10 @@ func genKv(r *rand.Rand, tier string) kvInput {
 	hot := kvKeys[:1+r.Intn(len(kvKeys))]
 	motifAt, motif := -1, -1
 	if r.Intn(2) == 0 {
-		motifAt, motif = r.Intn(n), r.Intn(numMotifs+2)
-		if motif >= numMotifs {
+		motifAt, motif = r.Intn(n), r.Intn(numMotifs+3)
+		if motif == numMotifs+2 {
+			motif = motifSweepWindow // two shares
+		} else if motif >= numMotifs {
 			motif = motifWindow // the interaction with the most moving parts gets three shares
 		}
 		if motif == motifDDocSwap {
@@ -524,6 +526,7 @@ const (
 	motifSubdocShapes
 	motifXattrView
 	motifShortXattrs
+	motifSweepWindow
 	numMotifs
 )
 
@@ -868,6 +871,68 @@ func genMotif(r *rand.Rand, m int, in *kvInput, exists map[string]bool, hot []st
 			}
 		}
 		kv(read())
+	case motifSweepWindow:
+		// The expiry timer fires; between the sweep's query of one collection and its removals the documents it read
+		// are written again - with no expiry, a later one, another one that has passed too, deleted, touched - and
+		// other documents come due.  The sweep may remove only what is still due when it removes it.
+		due := func() uint32 { return pick(r, pastExps) }
+		anyExp := func() uint32 { return pick(r, []uint32{0, 0, pick(r, farExps), pick(r, farExps), pick(r, pastExps)}) }
+		seed := func(c, k string) {
+			in.Ops = append(in.Ops, Step{Kind: "kv", Coll: c, Key: k, Handle: r.Intn(in.Handles),
+				Op: &KOp{Kind: pick(r, []string{"Set", "SetRaw", "Add", "Set"}), Exp: pick(r, []uint32{due(), due(), due(), pick(r, farExps), 0}), Val: sp(pick(r, jsonBodies))}, Clock: next()})
+		}
+		for _, k2 := range kvKeys {
+			if r.Intn(4) > 0 {
+				seed(cn, k2)
+			}
+		}
+		other := pick(r, live)
+		if other != cn && r.Intn(2) == 0 {
+			seed(other, pick(r, kvKeys))
+		}
+		if r.Intn(3) == 0 {
+			kv(xattrWrite())
+		}
+		var win []Step
+		for j, m := 0, 1+r.Intn(3); j < m; j++ {
+			wc, wk := cn, pick(r, kvKeys)
+			if r.Intn(5) == 0 {
+				wc = other
+			}
+			var op *KOp
+			switch r.Intn(12) {
+			case 0, 1:
+				op = &KOp{Kind: pick(r, []string{"Set", "SetRaw"}), Exp: anyExp(), Val: sp(pick(r, jsonBodies))}
+			case 2:
+				op = &KOp{Kind: pick(r, []string{"Touch", "GetAndTouchRaw"}), Exp: anyExp()}
+			case 3:
+				op = &KOp{Kind: pick(r, []string{"Add", "AddRaw"}), Exp: anyExp(), Val: sp(pick(r, jsonBodies))}
+			case 4:
+				op = &KOp{Kind: "Delete"}
+			case 5:
+				op = &KOp{Kind: "Set", Preserve: true, Val: sp(pick(r, jsonBodies))}
+			case 6:
+				op = &KOp{Kind: "SetXattrs", Xs: genXs(r, false)}
+			case 7:
+				op = &KOp{Kind: "Update", Exp: anyExp(), Cb: &Callback{Kind: pick(r, []string{"set", "delete", "exponly"}), Val: sp(pick(r, jsonBodies)), NewExp: u32p(anyExp())}}
+			case 8:
+				op = &KOp{Kind: "WriteCas", CasMode: pick(r, []string{"current", "zero", "stale"}), Exp: anyExp(), Val: sp(pick(r, jsonBodies))}
+			case 9:
+				op = &KOp{Kind: "Incr", Amt: 1, Deflt: 5, Exp: anyExp()}
+			case 10:
+				op = &KOp{Kind: "WriteWithXattrs", CasMode: pick(r, []string{"current", "zero"}), Exp: anyExp(), Val: sp(pick(r, jsonBodies)), Xs: genXs(r, false), Preserve: r.Intn(3) == 0}
+			default:
+				op = read()
+			}
+			win = append(win, Step{Kind: "kv", Coll: wc, Key: wk, Handle: r.Intn(in.Handles), Op: op, Clock: next()})
+		}
+		in.Ops = append(in.Ops, Step{Kind: "expire", WinColl: cn, Win: win, Clock: next()})
+		kv(read())
+		if r.Intn(2) == 0 {
+			// what came due inside the window is taken by the next firing
+			in.Ops = append(in.Ops, Step{Kind: "expire", Clock: next()})
+		}
+		kv(inserter())
 	case motifPreserve:
 		// an expiry that writes with PreserveExpiry must keep, through every entry point that takes the option
 		kv(&KOp{Kind: pick(r, []string{"Set", "Add"}), Exp: pick(r, farExps), Val: sp(pick(r, jsonBodies))})
